@@ -1,6 +1,7 @@
 """C12 - A screen prints exactly its content then its prompt; paging loses nothing."""
 from harness.props.common import *
 from harness.gen.trees import gen_tree, gen_text
+from harness.props import session as _s
 
 THEOREM_NOTE = ("Props/C12.lean: paging - every line once in order, requests exactly after each full page of h-2 lines, none after the last page, "
                 "count = ceil(n/(h-2))-1, short content without request; window = title part ++ lines of each item in order; separator = n empty "
@@ -10,6 +11,9 @@ ASSUMPTIONS = ASSUME_PY + ["A-I18N: gettext falls back to identity (LANG=C)", "s
 RULE = ("paging exhaustive heights 3..40 x line counts 0..200 (quick: 0..90); prompt edit sequences (0..7 add/update/remove/set_message operations over "
         "keys incl. the default r/c/q/h, multi-digit and non-ASCII keys) at widths 1..80; windows with 0..5 items (texts, separators, nested containers) and "
         "titles; non-trivial = paging with >= 1 request, prompts with >= 2 options, windows with >= 2 items")
+
+
+from harness.props.common import run_impl as common_run_impl, model_case as common_model_case
 
 
 def generate(rnd, tier):
@@ -29,10 +33,35 @@ def generate(rnd, tier):
         items = [rnd.choice([["text", gen_text(rnd)], ["sep", rnd.randint(1, 3)], gen_tree(rnd, 1)]) for _ in range(rnd.randint(0, 5))]
         cases.append(with_cc({"op": "tree", "tree": ["window", rnd.choice([None, "", "Title", "a long title of the window that wraps"]), items],
                               "ops": [["render", rnd.choice([1, 3, 8, 20, 40, 80])]]}))
+    # whole-screen draws through the real scheduler: long contents on low screens, drawn several times (refresh key, rejected lines, return from a pushed screen)
+    for _ in range(300 if tier == "quick" else 3000):
+        nscr = rnd.randint(1, 2)
+        screens = []
+        for i in range(nscr):
+            screens.append(dict(id=i, name="S%d" % i, title=rnd.choice([None, "T%d" % i]), text="".join("LINE-%02d\n" % k for k in range(rnd.randint(1, 40))),
+                                height=rnd.choice([4, 5, 6, 8, 12, 30]), input_required=True, no_separator=rnd.random() < 0.2, skip_check=False,
+                                scripts={"input": [{"ret": rnd.choice(["REDRAW", "r", "DISCARDED", "PROCESSED", "CLOSE"])} for _ in range(8)]}))
+        init = [["schedule", i, None] for i in range(nscr)]
+        cases.append(_s.with_cc(dict(op="machine", mode="paging", width=rnd.choice([80, 40, 12]), screens=screens, handlers=[], init=init,
+                                    stdin=[rnd.choice(["", "", "", "r", "x", "c"]) for _ in range(rnd.randint(2, 30))], quit_cb=None, quit_screen=None,
+                                    exc_handler=False, run_empty=False, deliver_at=[])))
     return cases
 
 
+def run_impl(case):
+    return _s.run_impl(case) if case["op"] == "machine" else common_run_impl(case)
+
+
+def model_case(case):
+    return _s.model_case(case) if case["op"] == "machine" else common_model_case(case)
+
+
+def strip_obs(obs):
+    return _s.strip_obs(obs) if isinstance(obs, dict) and "xlog" in obs else obs
+
+
 def compare(case, impl, model):
+    if case["op"] == "machine": return _s.compare(case, impl, model)
     if case["op"] == "tree":
         for a, b in zip(impl, model):
             if b.get("err") == "OutOfDomain": return None
@@ -41,7 +70,40 @@ def compare(case, impl, model):
     return plain_compare(case, impl, model)
 
 
+def monitor_session(case, obs):
+    """every draw prints the title part and every content line exactly once, in order, in pages of at most height-2 lines each followed by one continue request"""
+    from harness.impl.app import Render
+    x = _s.X(case, obs); out = obs["out"]; W = case["width"]
+    cont = Render.prompt_text("cont", W)
+    open_show = {}
+    reads_at = sorted(c["out"] for e, c in obs["xlog"] if e[0] == "read" and c.get("out") is not None)
+    for i, ev, ctx in x.events():
+        if ev[0] == "cb" and ev[2] == "show" and "out" in ctx: open_show[ev[1]] = ctx["out"]
+        if ev[0] == "cb<" and ev[2] == "show" and ev[1] in open_show and "out" in ctx:
+            a, b = open_show.pop(ev[1]), ctx["out"]
+            chunk = out[a:b]
+            spec = x.specs[ev[1]]
+            exp = Render.window_lines(spec, W)
+            pages = chunk.split(cont)
+            got = [l for p_ in pages for l in p_.split("\n")[:-1]] if chunk else []
+            # the last page ends with a newline; earlier pages end right before the continue prompt
+            got = []
+            for p_ in pages:
+                ls = p_.split("\n")
+                if ls and ls[-1] == "": ls = ls[:-1]
+                got += ls
+            if got != exp: return "the draw of %s printed %d lines, its window has %d: first difference at line %d (%r / %r)" % (
+                spec["name"], len(got), len(exp), next((k for k in range(min(len(got), len(exp))) if got[k] != exp[k]), min(len(got), len(exp))), got[:3], exp[:3])
+            h = spec.get("height", 30)
+            sizes = [len([l for l in p_.split("\n") if l != ""] if False else (p_.split("\n")[:-1] if p_.endswith("\n") else p_.split("\n"))) for p_ in pages]
+            if len(pages) > 1 and any(sz > h - 2 for sz in sizes): return "a page of %d lines on a screen of height %d" % (max(sizes), h)
+            n_reads = sum(1 for r in reads_at if a < r < b)
+            if n_reads != len(pages) - 1: return "%d lines were consumed while drawing %s, %d continue requests were shown" % (n_reads, spec["name"], len(pages) - 1)
+    return None
+
+
 def monitor(case, obs):
+    if case["op"] == "machine": return monitor_session(case, obs)
     from harness.impl.render import build
     if case["op"] == "paging":
         n, h = case["n"], case["h"]
@@ -87,9 +149,10 @@ def monitor(case, obs):
 
 
 def nontrivial(case, obs):
+    if case["op"] == "machine": return sum(1 for e in obs["log"] if e[0] == "cb" and e[2] == "show") >= 2
     if case["op"] == "paging": return isinstance(obs, list) and -1 in obs
     if case["op"] == "prompt": return obs["str"].count("'") >= 4
     return len(case["tree"][2]) >= 2
 
 
-def outcome(case, obs): return case["op"]
+def outcome(case, obs): return case["op"] if case["op"] != "machine" else "session/" + obs["outcome"][0]
